@@ -195,6 +195,7 @@ let run_prop (prop : string) (path : string) =
   let cur_parsed : op option ref = ref None and cur_res = ref "" in
   let seen_shadow_fill = ref false in
   let reported : (string, unit) Hashtbl.t = Hashtbl.create 64 in
+  let case_mism0 = ref 0 in
   let geti tbl k = try Hashtbl.find tbl k with Not_found -> z0 in
   let rate_of a = geti rates (zs a) in
   let impl_z k = try z (Hashtbl.find impl k) with Not_found -> z0 in
@@ -623,7 +624,7 @@ let run_prop (prop : string) (path : string) =
       match tokens line with
       | "case" :: id :: _ ->
         end_case ();
-        case := id; step := 0; model := init; dead := false;
+        case := id; step := 0; model := init; dead := false; case_mism0 := !mismatches;
         Hashtbl.reset impl; Hashtbl.reset known; Hashtbl.reset by_owner; Hashtbl.reset by_pair; Hashtbl.reset funded; Hashtbl.reset rates;
         Hashtbl.reset fills_net; Hashtbl.reset nonconserving; Hashtbl.reset changed; Hashtbl.reset prev_changed;
         Buffer.clear sig_; seen_fill := false; seen_end := false; seen_pool := false; seen_farm := false; pending_mm := None;
@@ -642,7 +643,10 @@ let run_prop (prop : string) (path : string) =
          | Some o ->
            let ai = user_order_amm o in
            bump "eval:NewUserOrder";
-           let chk f a b = if a <> b then mismatch ~case:!case ~step:!step ~field:(Printf.sprintf "NewUserOrder:%s:%s" k f) ~model:a ~impl:b in
+           let chk f a b =
+             let fld = Printf.sprintf "NewUserOrder:%s:%s" k f in
+             if a <> b && not (Hashtbl.mem reported fld) then begin
+               Hashtbl.replace reported fld (); mismatch ~case:!case ~step:!step ~field:fld ~model:a ~impl:b end in
            chk "direction" (if ai.ai_buy then "B" else "S") d;
            chk "price" (zs ai.ai_price) price;
            chk "amount" (zs ai.ai_amt) amt;
@@ -730,7 +734,7 @@ let run_prop (prop : string) (path : string) =
         check_props ();
         let t2 = Sys.time () in
         tdiff := !tdiff +. (t1 -. t0); tprops := !tprops +. (t2 -. t1);
-        if !mismatches > 40 then dead := true
+        if !mismatches - !case_mism0 > 40 then dead := true      (* this case has diverged; the next case starts afresh *)
       | "o" :: k :: vs when not !dead ->
         let v = cat vs in
         Hashtbl.replace changed k ();
